@@ -24,14 +24,16 @@ def states(tier, seed):
     st = []
     nxs = [2, 3] if tier == "quick" else [2, 3, 4]
     sides = [("left", 2), ("left", 3), ("full", 5), ("right", 3)] + ([("full", 3), ("full", 7), ("left", 5)] if tier == "thorough" else [])
-    origins = [0.35, 0.0, 0.25, 0.7, 1.0, "wingbox"]
+    # "wingbox+key": a wingbox surface whose dictionary also carries the documented (tube) key fem_origin - the wingbox
+    # model derives the elastic axis from the section data everywhere, the key must not move the moment reference alone
+    origins = [0.35, 0.0, 0.25, 0.7, 1.0, "wingbox", "wingbox+key"]
     for nx, (side, ny), pf, fo in itertools.product(nxs, sides, ["swept", "twdi", "camber"], origins):
         if pf == "camber" and nx < 3:
             continue
         st.append(dict(part="loads", nx=nx, ny=ny, side=side, pf=pf, origin=fo, fam=fam))
     for nx, (side, ny), pf, nsurf in itertools.product(nxs, sides, ["swept", "twdi"], [1, 2]):
         st.append(dict(part="mpf", nx=nx, ny=ny, side=side, pf=pf, nsurf=nsurf, fam=fam))
-    for nx, (side, ny), pf, fo in itertools.product(nxs, sides, ["swept", "twdi", "camber"], [0.35, 0.0, 1.0, "wingbox"]):
+    for nx, (side, ny), pf, fo in itertools.product(nxs, sides, ["swept", "twdi", "camber"], [0.35, 0.0, 1.0, "wingbox", "wingbox+key"]):
         if pf == "camber" and nx < 3:
             continue
         st.append(dict(part="disp", nx=nx, ny=ny, side=side, pf=pf, origin=fo, fam=fam))
@@ -42,6 +44,8 @@ def surf_of(s, mesh):
     sym = s["side"] != "full"
     if s.get("origin") == "wingbox":
         return builders.struct_surface("w", mesh, sym, "wingbox")
+    if s.get("origin") == "wingbox+key":
+        return builders.struct_surface("w", mesh, sym, "wingbox", fem_origin=0.2)
     return builders.struct_surface("w", mesh, sym, "tube", fem_origin=s.get("origin", 0.35))
 
 
@@ -80,6 +84,19 @@ def part_loads(s):
     n = 3 * (nx - 1) * (ny - 1)
     viol, val, runs = [], 0, 0
     wh = dict(part="loads", origin=str(s["origin"]))
+    # the nodes the loads are applied to are the structural nodes the library itself places on this mesh
+    from openaerostruct.structures.compute_nodes import ComputeNodes
+
+    q = om.Problem(reports=False)
+    q.model.add_subsystem("n", ComputeNodes(surface=surf), promotes=["*"])
+    q.setup()
+    q.set_val("mesh", m)
+    q.run_model()
+    val += 1
+    e = np.abs(q["nodes"] - spts).max() / np.abs(m).max()
+    if not e <= 1e-12:
+        viol.append(dict(sig=dict(oracle="structural_nodes_on_spar_line", **wh), msg="ComputeNodes places the nodes %.2e (rel.) away from the spar line at chord fraction %.4f" % (e, w2), measure=float(e)))
+    spts = q["nodes"].copy()
 
     def loads_of(F):
         nonlocal runs
